@@ -232,3 +232,45 @@ func (x *Exec) clockGet(st *State) string {
 	st.ghost["clock"] = TV{SSeqI, x.initialClock}
 	return x.initialClock
 }
+
+// golang.org/x/text UTF-16 writer (property C17): what transform.NewWriter(w, UTF16(LE).NewEncoder())
+// writes is modelled by an uninterpreted function utf16le of the bytes handed to Write.
+func init() {
+	ext("golang.org/x/text/transform.NewWriter", "transform.NewWriter(w, t): a non-nil writer that hands what t produces to w",
+		func(x *Exec, st *State, fr *Frame, cc *ssa.CallCommon, args []Val, instr ssa.Instruction) []Outcome {
+			p, ok := x.symVal(st, "xtw", cc.Signature().Results().At(0).Type()).(PtrV)
+			if !ok {
+				return one(st, x.symResult(st, cc))
+			}
+			st.assume(tNot(tEq(p.Ref, "0")))
+			st.ghost["xtw:"+p.Ref] = args[0]
+			return one(st, p)
+		})
+	ext("(*golang.org/x/text/transform.Writer).Write", "transform.Writer.Write(p) with the UTF-16 little-endian encoder: appends utf16le(p) to the underlying writer (assumed: each call's bytes are complete UTF-8 sequences and are encoded independently); returns len(p), nil for an in-memory writer",
+		func(x *Exec, st *State, fr *Frame, cc *ssa.CallCommon, args []Val, instr ssa.Instruction) []Outcome {
+			p, ok := args[0].(PtrV)
+			var under Val
+			if ok {
+				under = st.ghost["xtw:"+p.Ref]
+			}
+			var rd *stream
+			if under != nil {
+				rd = x.readerOf(st, under)
+			}
+			if rd == nil {
+				x.havocForUnknown(st, args)
+				return one(st, x.symResult(st, cc))
+			}
+			_, s := x.seqOf(st, args[1], cc.Args[1].Type())
+			x.w.Decl("(declare-fun g_utf16le (" + SSeqI + ") " + SSeqI + ")")
+			enc := app("g_utf16le", s)
+			st.assume(app("g_isbytes", enc))
+			st.assume(tAnd(tCmp("<=", "0", sLen(SSeqI, enc)), tCmp("<=", sLen(SSeqI, enc), tMulC("4", sLen(SSeqI, s)))))
+			rd.set(st, sApp(SSeqI, rd.get(st), enc))
+			return one(st, TupleV{TV{SInt, sLen(SSeqI, s)}, nilErr()})
+		})
+	specFuncs["utf16le"] = func(e *specEnv, args []SV) SV { // UTF-16LE encoding of UTF-8 text (uninterpreted)
+		e.x.w.Decl("(declare-fun g_utf16le (" + SSeqI + ") " + SSeqI + ")")
+		return SV{V: TV{SSeqI, app("g_utf16le", e.term(args[0]))}, T: types.NewSlice(types.Typ[types.Uint8])}
+	}
+}
